@@ -35,6 +35,8 @@ def main():
             d = r.get("diff") or {}
             print("%-9s %-70s paths=%-4s vcs=%-4s %5.1fs diff=%s" % (r["status"], r["name"][:70], r["paths"], r["vcs"],
                                                                   r.get("wall_s", 0), d.get("samples")))
+            if a.v:
+                print("      phases:", r.get("phase_s"))
             if r["status"] != "proved" or a.v:
                 for n in r["notes"]:
                     print("      note:", n)
